@@ -290,22 +290,24 @@ impl ZonedDateTime {
         let start = self.tz.get_iso_datetime_for(&self.instant, provider)?;
         // 3. Let endDateTime be GetISODateTimeFor(timeZone, ns2).
         let end = self.tz.get_iso_datetime_for(&other.instant, provider)?;
-        // If both instants fall on the same wall-clock date the difference is the exact time
-        // between them: the day correction below would otherwise measure from the compatible
-        // resolution of the start time, which is another instant in a repeated hour.
-        if start.date == end.date {
-            let time_duration = NormalizedTimeDuration::from_nanosecond_difference(
-                other.epoch_nanoseconds().as_i128(),
-                self.epoch_nanoseconds().as_i128(),
-            )?;
-            return NormalizedDurationRecord::new(Default::default(), time_duration);
-        }
         // 4. If ns2 - ns1 < 0, let sign be -1; else let sign be 1.
         let sign = if other.epoch_nanoseconds().as_i128() - self.epoch_nanoseconds().as_i128() < 0 {
             Sign::Negative
         } else {
             Sign::Positive
         };
+        // If both instants fall on the same wall-clock date the difference is the exact time
+        // between them: the day correction below would otherwise measure from the compatible
+        // resolution of the start time, which is another instant in a repeated hour. The same
+        // holds when a backward transition puts the later instant on an earlier date: no date
+        // difference of the right sign exists.
+        if end.date.cmp(&start.date) as i8 != sign as i8 {
+            let time_duration = NormalizedTimeDuration::from_nanosecond_difference(
+                other.epoch_nanoseconds().as_i128(),
+                self.epoch_nanoseconds().as_i128(),
+            )?;
+            return NormalizedDurationRecord::new(Default::default(), time_duration);
+        }
         // 5. If sign = 1, let maxDayCorrection be 2; else let maxDayCorrection be 1.
         let max_correction = if sign == Sign::Positive { 2 } else { 1 };
         // 6. Let dayCorrection be 0.
